@@ -25,7 +25,7 @@
 #                                                                                  ASan heap-buffer-overflow on "h\0K" (fixed: b374315)
 #   NOT killed, by design:   report() `if (result <= orr)` guard dropped - changes only the explanatory text appended to a
 #                            Z/D report (the K line's text), never the verdict letter; the property is about the verdict.
-from vlib import Obl, Prog
+from vlib import Obl, Prog, borrow
 
 
 STRALLOC = ["stralloc_opys.c", "stralloc_opyb.c", "stralloc_pend.c", "stralloc_catb.c", "byte_copy.c"]
@@ -35,7 +35,9 @@ def obligations(tier):
     report_ls = list(range(0, 9)) if tier == "quick" else list(range(0, 11))
     code_ns = [12] if tier == "quick" else [12, 14, 16, 18]
     nrs = [1, 2] if tier == "quick" else [1, 2, 3]
-    return [
+    # spawn.c relays what qmail-remote printed: the report buffer of a reused slot starts empty (spawn_docmd) and report() gets the wait
+    # status and output of that delivery's own child (spawn_main)
+    return borrow("C18", ["spawn_docmd", "spawn_main"], tier) + [
         Obl("smtpcode", "smtpcode.c",
             progs=[Prog("qmail-remote.c", nomain=True, cut=["dropped"])],
             repo=STRALLOC, lib=["ideal_substdio.c", "arena_stralloc.c"],
